@@ -96,12 +96,13 @@ TU_BODIES = ["{{{1}}}", "{{{1|d}}}", "x|y", "\n* a", "{|", "|}", "|-\n| c", "</d
              "<noinclude>n</noinclude>i", "<includeonly>", "", "{{{1", "}}", "<nowiki>", "==",
              # recursion routed through tag extensions whose body is expanded and parsed again
              "<ref>{{T}}</ref>", "a<ref>{{U}}</ref>", "<poem>{{T}}</poem>", "<gallery>\nFile:A.png|{{T}}\n</gallery>", "<ref>{{E|{{T}}}}</ref>",
-             "<pages index=a from=1 to=3/>{{T}}", "<imagemap>\nImage:A.png\ndefault [[{{T}}]]\n</imagemap>"]
+             "<pages index=a from=1 to=3/>{{T}}", "<pages index=a from=1 to=1/>", "x<pages index=a from=2 to=3/>y", "<imagemap>\nImage:A.png\ndefault [[{{T}}]]\n</imagemap>"]
 
 
 def template_universe(body):
     """T has the given body; U calls T (so {{U}} in T is a cycle); E echoes its first argument"""
-    return {"T": body, "U": "{{T}}", "E": "{{{1}}}"}
+    # A/1..A/3: the pages a <pages index=a from=1 to=3/> tag transcludes; the first one calls T again
+    return {"T": body, "U": "{{T}}", "E": "{{{1}}}", "A/1": "{{T}}p1", "A/2": "p2<ref>{{T}}</ref>", "A/3": "p3"}
 
 
 NESTABLE = [
